@@ -392,8 +392,11 @@ func lexGround(l *lexer) stateFn {
 			return lexGround
 		case '*':
 			// Start of a /* comment
+			line, col := l.line, l.col-1
+			// Consume the '*' so it cannot double as the start of the closing */
+			l.next()
 			if !l.skipTo("*/") {
-				l.ErrorfAt(l.line, l.col-1, `missing closing */`)
+				l.ErrorfAt(line, col, `missing closing */`)
 				return nil
 			}
 			// Now actually skip the */
